@@ -1075,3 +1075,194 @@ func ruleSeparator(prog *Program, rep *Report) {
 	rep.Rules = append(rep.Rules, "W-sep: in a writer loop over optional elements (the loop body tests a loop-local element against nil) every append of the separator is control dependent on the element being present: a separator written before an absent element is a trailing or doubled separator")
 	runSynRule(prog, rep, "W-sep", []string{"pretty", "oj"}, matchSeparatorBeforeAbsent, fixtureSeparator, 1, 1)
 }
+
+// ---------------------------------------------------------------- K-nilelem
+
+// matchUnguardedElem: `v = v.Elem()` on a reflect.Value selected by
+// v.Kind() == reflect.Ptr (or Interface) with no v.IsNil() test on the way: for a
+// nil pointer Elem() is the zero Value and the next Interface()/Field() call
+// panics (the encoders turn that into an empty result or an error instead of null).
+func matchUnguardedElem(files []*ast.File, info *types.Info) (sites []synSite, examined int) {
+	isReflectValue := func(e ast.Expr) bool {
+		t := info.TypeOf(e)
+		return t != nil && t.String() == "reflect.Value"
+	}
+	mentions := func(n ast.Node, recv string, method string) bool {
+		found := false
+		ast.Inspect(n, func(k ast.Node) bool {
+			c, ok := k.(*ast.CallExpr)
+			if !ok {
+				return true
+			}
+			if sel, ok := c.Fun.(*ast.SelectorExpr); ok && sel.Sel.Name == method && types.ExprString(sel.X) == recv {
+				found = true
+			}
+			return true
+		})
+		return found
+	}
+	for _, f := range files {
+		var stack []ast.Node
+		ast.Inspect(f, func(n ast.Node) bool {
+			if n == nil {
+				stack = stack[:len(stack)-1]
+				return true
+			}
+			stack = append(stack, n)
+			as, ok := n.(*ast.AssignStmt)
+			if !ok || len(as.Lhs) != 1 || len(as.Rhs) != 1 {
+				return true
+			}
+			c, ok := ast.Unparen(as.Rhs[0]).(*ast.CallExpr)
+			if !ok || len(c.Args) != 0 {
+				return true
+			}
+			sel, ok := c.Fun.(*ast.SelectorExpr)
+			if !ok || sel.Sel.Name != "Elem" || !isReflectValue(sel.X) {
+				return true
+			}
+			recv := types.ExprString(sel.X)
+			if types.ExprString(as.Lhs[0]) != recv {
+				return true
+			}
+			// only the form selected by a Kind() test in an enclosing if
+			kindIf := false
+			nilSeen := false
+			isNilCall := func(e ast.Expr) bool {
+				c, ok := ast.Unparen(e).(*ast.CallExpr)
+				if !ok {
+					return false
+				}
+				sel, ok := c.Fun.(*ast.SelectorExpr)
+				return ok && sel.Sel.Name == "IsNil" && types.ExprString(sel.X) == recv
+			}
+			var conjuncts func(e ast.Expr) []ast.Expr
+			conjuncts = func(e ast.Expr) []ast.Expr {
+				if be, ok := ast.Unparen(e).(*ast.BinaryExpr); ok && be.Op == token.LAND {
+					return append(conjuncts(be.X), conjuncts(be.Y)...)
+				}
+				return []ast.Expr{e}
+			}
+			var disjuncts func(e ast.Expr) []ast.Expr
+			disjuncts = func(e ast.Expr) []ast.Expr {
+				if be, ok := ast.Unparen(e).(*ast.BinaryExpr); ok && be.Op == token.LOR {
+					return append(disjuncts(be.X), disjuncts(be.Y)...)
+				}
+				return []ast.Expr{e}
+			}
+			leaves := func(b *ast.BlockStmt) bool {
+				if b == nil || len(b.List) == 0 {
+					return false
+				}
+				switch l := b.List[len(b.List)-1].(type) {
+				case *ast.ReturnStmt, *ast.BranchStmt:
+					return true
+				case *ast.ExprStmt:
+					if c, ok := l.X.(*ast.CallExpr); ok {
+						if id, ok := c.Fun.(*ast.Ident); ok && id.Name == "panic" {
+							return true
+						}
+					}
+				}
+				return false
+			}
+			var child ast.Node = as
+			for i := len(stack) - 2; i >= 0; i-- {
+				switch s := stack[i].(type) {
+				case *ast.IfStmt:
+					if mentions(s.Cond, recv, "Kind") {
+						kindIf = true
+					}
+					if child == ast.Node(s.Body) {
+						// then-branch: a conjunct !v.IsNil()
+						for _, c := range conjuncts(s.Cond) {
+							if u, ok := ast.Unparen(c).(*ast.UnaryExpr); ok && u.Op == token.NOT && isNilCall(u.X) {
+								nilSeen = true
+							}
+						}
+					} else if s.Else != nil && child == s.Else {
+						// else-branch of a condition that is true whenever v is nil
+						for _, d := range disjuncts(s.Cond) {
+							if isNilCall(d) {
+								nilSeen = true
+							}
+						}
+					}
+				case *ast.BlockStmt:
+					// an earlier statement of the block leaves whenever v is nil
+					for _, st := range s.List {
+						if st.Pos() >= as.Pos() {
+							break
+						}
+						if ifs, ok := st.(*ast.IfStmt); ok && leaves(ifs.Body) {
+							for _, d := range disjuncts(ifs.Cond) {
+								if isNilCall(d) {
+									nilSeen = true
+								}
+							}
+						}
+					}
+				case *ast.FuncDecl:
+					if s.Recv != nil && strings.Contains(types.ExprString(s.Recv.List[0].Type), "Recomposer") {
+						kindIf = false // decoding side: the target pointer is allocated by the caller
+						i = -1
+						continue
+					}
+					i = -1
+				case *ast.FuncLit:
+					i = -1
+				}
+				if i >= 0 {
+					child = stack[i]
+				}
+			}
+			if !kindIf {
+				return true
+			}
+			examined++
+			if !nilSeen {
+				sites = append(sites, synSite{pos: as.Pos(), file: f, key: enclosingFuncName(f, as.Pos()) + ":elem-of-nil:" + recv,
+					msg: fmt.Sprintf("%s = %s.Elem() is selected by the kind test only: for a nil pointer the result is the zero reflect.Value and the following Interface()/field access panics - a nil pointer must encode as null", recv, recv)})
+			}
+			return true
+		})
+	}
+	return
+}
+
+const fixtureUnguardedElem = `package fixture
+
+import "reflect"
+
+func walk(rv reflect.Value) any {
+	for j := 0; j < rv.Len(); j++ {
+		rm := rv.Index(j)
+		if rm.Kind() == reflect.Ptr {
+			rm = rm.Elem()
+		}
+		_ = rm.Interface()
+	}
+	return nil
+}
+
+func fine(rv reflect.Value) any {
+	for j := 0; j < rv.Len(); j++ {
+		rm := rv.Index(j)
+		if rm.Kind() == reflect.Ptr && !rm.IsNil() {
+			rm = rm.Elem()
+		}
+		if rm.Kind() == reflect.Ptr {
+			if rm.IsNil() {
+				continue
+			}
+			rm = rm.Elem()
+		}
+	}
+	return nil
+}
+`
+
+func ruleUnguardedElem(prog *Program, rep *Report, rels ...string) {
+	rep.Rules = append(rep.Rules, "K-nilelem: in the encoders a reflect.Value is replaced by its Elem() under a Kind() test only where an IsNil() test of the same value guards the way (enclosing condition, or an earlier statement of the block): a nil pointer inside a slice, map or field encodes as null and never reaches Interface() as the zero Value")
+	runSynRule(prog, rep, "K-nilelem", rels, matchUnguardedElem, fixtureUnguardedElem, 1, 4)
+}
